@@ -8,7 +8,7 @@ V = Path(__file__).resolve().parent
 res = json.loads((V / "seeded" / "RESULTS.json").read_text())
 lines = ["# Seeded changes versus checks", "",
          "Written by `tools_coverage.py` from `seeded/RESULTS.json` (`python3 selftest/run_seeded.py`).",
-         "`a`, `b`: round 1, `c`, `d`: round 2, `e`, `f`: round 3, `g`, `h`: round 4, `i`: round 5, `j`, `k`: round 6 (breaking changes); `r` (round 2), `s` / `t` (round 3: large / small), `u` / `v` (round 4: large / medium), `w` / `x` / `y` (round 5: large / medium / style), `z` / `q` (round 6: architectural / idiom): behaviour-preserving edits (must be silent).", "",
+         "`a`, `b`: round 1, `c`, `d`: round 2, `e`, `f`: round 3, `g`, `h`: round 4, `i`: round 5, `j`, `k`: round 6, `l`: round 7 (breaking changes); `r` (round 2), `s` / `t` (round 3: large / small), `u` / `v` (round 4: large / medium), `w` / `x` / `y` (round 5: large / medium / style), `z` / `q` (round 6: architectural / idiom): behaviour-preserving edits (must be silent).", "",
          "| variant | target | kind | reported by | first report / note |", "|---|---|---|---|---|"]
 n_break = n_caught = n_own = n_benign = n_silent = 0
 for name in sorted(res):
